@@ -116,6 +116,9 @@ Definition iter_len (it : iter) : M Z := uadd (slen (it_right it)) (slen (it_lef
 
 Definition iter_clone (it : iter) : iter := mkI (it_right it) (it_left it).
 
+(* impl Default for Iter (iter.rs:289): Self::empty() *)
+Definition iter_default : iter := iter_empty.
+
 (* ---- IterMut (iter.rs:353): the same text with &mut ------------------ *)
 
 Definition iter_mut_new : M iter :=
@@ -129,6 +132,10 @@ Definition iter_mut_over_range (sb eb : bound) : M iter :=
   it <- advance_front_by it st;;
   d <- usub l en;;
   advance_back_by it d.
+
+(* IterMut::empty (iter.rs:365) and impl Default for IterMut (iter.rs:423) *)
+Definition iter_mut_empty : iter := mkI empty_slice empty_slice.
+Definition iter_mut_default : iter := iter_mut_empty.
 
 Definition iter_mut_next := iter_next.
 Definition iter_mut_next_back := iter_next_back.
